@@ -60,6 +60,65 @@ def memcheck(wd, cases, cap, n, rnd):
     return pick, results, blocks
 
 
+def region_stage(pid, wd):
+    """Zero-length and odd-length regions at both API levels, each batch in a sacrificial process, with the ledger on and a
+    quiescence point (ledger empty, /proc agrees) after every case."""
+    violations, distinct = [], set()
+    evaluations = validated = states = transitions = 0
+    # 2. zero-length and odd-length regions at both API levels (each batch in a sacrificial process)
+    zc = zero_cases()
+    raw = os.path.join(wd, "zero.ndjson")
+    pos = 0
+    raws = []
+    while pos < len(zc):
+        part = raw + ".%d" % pos
+        if os.path.exists(part):
+            os.remove(part)
+        p = run_harness("os", ["zeroshm"], env={"IPC_VERIF_TRACE": part, "RUST_BACKTRACE": "0"},
+                        stdin="\n".join(json.dumps(c) for c in zc[pos:]) + "\n", timeout=600)
+        raws.append(part)
+        last, done = None, set()
+        for line in p.stdout.splitlines():
+            if line.startswith("{"):
+                o = json.loads(line)
+                if "begin" in o:
+                    last = o["begin"]
+                elif "id" in o:
+                    done.add(o["id"])
+                    evaluations += 1
+                    if not o["ok"]:
+                        c = [x for x in zc if x["id"] == o["id"]][0]
+                        violations.append({"what": "region %s: %s" % (json.dumps(c), o["why"]), "key": "zero:" + o["why"][:40],
+                                           "replay": write_replay(pid, "zero-%d" % o["id"], {"property": pid, "case": c})})
+        remaining = [c for c in zc[pos:] if c["id"] not in done]
+        if not remaining:
+            break
+        c = [x for x in zc if x["id"] == last][0]
+        msg = [l for l in p.stderr.splitlines() if "panicked" in l or "unsafe precondition" in l]
+        violations.append({"what": "creating/reading region %s killed the process: %s" % (json.dumps(c), " ".join(msg)[:300]),
+                           "key": "zero:abort level=%s len=%d" % (c["level"], c["len"]),
+                           "replay": write_replay(pid, "zero-%d" % c["id"], {"property": pid, "case": c, "stderr": p.stderr[-1500:]})})
+        pos = zc.index(c) + 1
+    for c in zc:
+        distinct.add(case_hash(("zero", c["level"], c["how"], c["len"])))
+    rc = os.path.join(wd, "zero.res.ndjson")
+    evs = rescheck.convert(raws, rc)
+    lr, why = rescheck.validate(wd, "zero", rc)
+    require_ok(lr, "ResourcesTrace zero")
+    if lr.violation:
+        violations.append({"what": "ledger on zero/odd-length regions: %s" % why, "key": "ledger:" + (why or "")[:50],
+                           "replay": write_replay(pid, "ledger-zero", {"property": pid, "why": why})})
+    else:
+        validated += len(zc)
+        states += lr.distinct
+        transitions += lr.generated
+    for x in raws:
+        os.remove(x)
+    log("  regions: %d cases, ledger %s" % (len(zc), "clean" if not lr.violation else why))
+    return {"violations": violations, "distinct": distinct, "evaluations": evaluations, "validated": validated,
+            "states": states, "transitions": transitions}
+
+
 def run(tier):
     wd = workdir("c18")
     build_harness("os")
@@ -161,56 +220,14 @@ def run(tier):
         log("  memcheck: %d shapes under valgrind, %d bad-access reports (%.1fs)" % (len(mres), len(blocks), time.time() - t0))
         log("  shapes: %d cases, FragTrace %s, ledger %s" % (len(cases), "ok" if not (tr.violation or reject) else "REJECT",
                                                              "clean" if not lr.violation else why))
-    # 2. zero-length and odd-length regions at both API levels (each batch in a sacrificial process)
-    zc = zero_cases()
-    raw = os.path.join(wd, "zero.ndjson")
-    pos = 0
-    raws = []
-    while pos < len(zc):
-        part = raw + ".%d" % pos
-        if os.path.exists(part):
-            os.remove(part)
-        p = run_harness("os", ["zeroshm"], env={"IPC_VERIF_TRACE": part, "RUST_BACKTRACE": "0"},
-                        stdin="\n".join(json.dumps(c) for c in zc[pos:]) + "\n", timeout=600)
-        raws.append(part)
-        last, done = None, set()
-        for line in p.stdout.splitlines():
-            if line.startswith("{"):
-                o = json.loads(line)
-                if "begin" in o:
-                    last = o["begin"]
-                elif "id" in o:
-                    done.add(o["id"])
-                    evaluations += 1
-                    if not o["ok"]:
-                        c = [x for x in zc if x["id"] == o["id"]][0]
-                        violations.append({"what": "region %s: %s" % (json.dumps(c), o["why"]), "key": "zero:" + o["why"][:40],
-                                           "replay": write_replay("C18", "zero-%d" % o["id"], {"property": "C18", "case": c})})
-        remaining = [c for c in zc[pos:] if c["id"] not in done]
-        if not remaining:
-            break
-        c = [x for x in zc if x["id"] == last][0]
-        msg = [l for l in p.stderr.splitlines() if "panicked" in l or "unsafe precondition" in l]
-        violations.append({"what": "creating/reading region %s killed the process: %s" % (json.dumps(c), " ".join(msg)[:300]),
-                           "key": "zero:abort level=%s len=%d" % (c["level"], c["len"]),
-                           "replay": write_replay("C18", "zero-%d" % c["id"], {"property": "C18", "case": c, "stderr": p.stderr[-1500:]})})
-        pos = zc.index(c) + 1
-    for c in zc:
-        distinct.add(case_hash(("zero", c["level"], c["how"], c["len"])))
-    rc = os.path.join(wd, "zero.res.ndjson")
-    evs = rescheck.convert(raws, rc)
-    lr, why = rescheck.validate(wd, "zero", rc)
-    require_ok(lr, "ResourcesTrace zero")
-    if lr.violation:
-        violations.append({"what": "ledger on zero/odd-length regions: %s" % why, "key": "ledger:" + (why or "")[:50],
-                           "replay": write_replay("C18", "ledger-zero", {"property": "C18", "why": why})})
-    else:
-        validated += len(zc)
-        states += lr.distinct
-        transitions += lr.generated
-    for x in raws:
-        os.remove(x)
-    log("  regions: %d cases, ledger %s" % (len(zc), "clean" if not lr.violation else why))
+    # 2. zero-length and odd-length regions at both API levels
+    rs = region_stage("C18", wd)
+    violations += rs["violations"]
+    distinct |= rs["distinct"]
+    evaluations += rs["evaluations"]
+    validated += rs["validated"]
+    states += rs["states"]
+    transitions += rs["transitions"]
     cov = {"explanation": "Restricted claim. What is decided: (a) Frag.tla's buffer discipline on recorded executions - every "
                           "receive window lies inside the buffer's capacity, starts at the current length, never passes the "
                           "announced total, returned length = sent length, nothing truncated - for message shapes around every "
